@@ -82,6 +82,15 @@ func checkC04(c *Ctx) {
 	c.Assume("conformance is relative to the transcription of the HAP constants in HcModel/SpecController.lean and ref_crypto.go; " +
 		"SRP values A, B, S enter M1/M2/K in minimal big-endian form (Stanford reference; DESIGN.md §6 C04 limits)")
 	c04SrpKeyLength(c)
+	// "everything after it is encrypted in both directions": the hand-over itself, at every point at which the controller's
+	// first frames can meet the accessory's write of the answer (forced on the real connection), first and second pair-verify
+	c03Handover(c)
+	c03Rekey(c)
+	// "for every valid setup code": also the code an accessory is given after it ran with another one (same name, same
+	// process) — the new code pairs, the previous one is answered with an authentication error
+	c02Repin(c)
+	// "for every … accessory identity and storage contents": a storage written by another installation of the library
+	c20ForeignStorage(c)
 	n := c.Pick(16, 96)
 	model := c.Model([]string{"spec run 1", "spec run 0"})
 	parallel(n, func(i int) {
